@@ -400,6 +400,7 @@ class HTTPHeaderDict(typing.MutableMapping[str, str]):
             "Content-Location",
             "Content-Type",
             "Content-Length",
+            "Transfer-Encoding",
             "Digest",
             "Last-Modified",
         ]
